@@ -44,6 +44,13 @@ type Case struct {
 	Declared   uint64 `json:"declared,omitempty"`
 	Tail       []byte `json:"tail,omitempty"` // short body following the prefix
 	Frag       int    `json:"frag,omitempty"` // ws: frames per message (0/1 = single frame)
+	// Flags is the per-message compressed-flag of the gRPC family,
+	// independent of the stream-level Grpc-Encoding header (Gzip): "" = the
+	// flag follows the header, "0" = every message uncompressed with flag 0,
+	// "alt01" / "alt10" = alternating flags starting with 0 / 1 (flagged
+	// messages are gzip-compressed), "1-nohdr" = compressed messages with
+	// flag 1 although no encoding was negotiated.
+	Flags string `json:"flags,omitempty"`
 	// Msg selects the request message type: "" = vf.Chunk, "req" = vf.Req
 	// (methods EchoR / CSR; payloads with many small repeated elements).
 	Msg string `json:"msg,omitempty"`
@@ -86,10 +93,34 @@ func (c *Case) protoName() string {
 	return p
 }
 
+// flagged reports whether request message i is sent gzip-compressed with
+// the compressed-flag set (gRPC family).
+func (c *Case) flagged(i int) bool {
+	switch c.Flags {
+	case "0":
+		return false
+	case "alt01":
+		return i%2 == 1
+	case "alt10":
+		return i%2 == 0
+	case "1-nohdr":
+		return true
+	}
+	return c.Gzip
+}
+
 func (c *Case) lane() string {
 	s := c.protoName() + "/" + c.Codec
 	if c.Gzip {
 		s += "/gzip"
+	}
+	switch c.Flags {
+	case "0":
+		s += "/flag0"
+	case "alt01", "alt10":
+		s += "/mixed-flags"
+	case "1-nohdr":
+		s += "/flag1-no-encoding"
 	}
 	return s
 }
